@@ -89,8 +89,58 @@ def handler_behaviours(ctx):
             ctx.counterexample(bad[0], inp, bad[1], bad[2], bad[3])
 
 
+def lifecycle_and_size(ctx):
+    """(a) The port closed and opened again on the same protocol object, data frames of every sequence number before and
+    after: each is acknowledged with its own number (nothing of the previous connection's acknowledgements survives).
+    (b) Checksum-valid data frames whose body is longer than the 247 bytes the host itself sends (248 .. 1000): accepted
+    frames like any other - acknowledged, then handed up."""
+    r = ctx.rng
+
+    def feed(p, log, b):
+        mark = len(log)
+        try:
+            p.data_received(bytes(b))
+        except BaseException as ex:  # noqa
+            log.append("RAISED:" + type(ex).__name__)
+        return log[mark:]
+
+    def judge(inp, got, seq, what):
+        want = "W" + hx(streams.ack(seq))
+        ok = len(got) == 2 and got[0] == want and got[1].startswith("D")
+        if not ok:
+            ctx.counterexample("ack-missing-or-wrong", inp, [want, "D..."], [g[:40] for g in got], what)
+
+    for before in ([1], [1, 2], [3], [2, 3, 1], [0]):
+        for after in ([0], [0, 1], [2], [before[-1]], [3, 0]):
+            p, log = rxworld.make(0, True, False, (), False)
+            hist = []
+            for phase, seqs in (("before", before), ("after", after)):
+                if phase == "after":
+                    p.close()
+                    p.connection_made(rxworld.RecTransport(log))
+                for q in seqs:
+                    f = streams.command_frame(r, q)
+                    got = feed(p, log, f)
+                    hist.append((phase, q))
+                    ctx.case(("reconnect", tuple(before), tuple(after), len(hist)), sample=dict(history=hist[-4:]))
+                    ctx.count("reopened-port")
+                    judge(dict(scenario="port closed and opened again", frames_before=before, frames_after=after, at=list(hist[-1])),
+                          got, q, "after the port was closed and opened again a data frame is not acknowledged with its own sequence number")
+    for n in [248, 249, 250, 254, 255, 256, 300, 500, 1000] + [r.randrange(248, 1200) for _ in range(ctx.scale(6, 60))]:
+        for flags in (0xC0, 0x40, 0x00, 0x80):
+            q = r.randrange(4)
+            f = streams.raw_frame(flags | (q << 2), bytes(r.getrandbits(8) for _ in range(n)))
+            p, log = rxworld.make(0, True, False, (), False)
+            got = feed(p, log, f)
+            ctx.case(("long-body", n, flags, q), sample=dict(body_len=n, flags=flags, seq=q))
+            ctx.count("body-longer-than-247")
+            judge(dict(scenario="data frame with a body longer than 247 bytes", body_len=n, flags=flags, seq=q, frame=hx(f)[:60]),
+                  got, q, "a checksum-valid data frame with a long body is not acknowledged and handed up")
+
+
 def run(ctx):
     handler_behaviours(ctx)
+    lifecycle_and_size(ctx)
     r = ctx.rng
     ctx.rule = ("streams as in C01 biased to data frames of every sequence number / flag combination, duplicates "
                 "(retransmissions), ACKs and corrupted frames, under whole / byte-wise / single-cut / random chunkings, "
